@@ -310,6 +310,8 @@ Proof.
     intros n x IHx Hx fuel rest Hf Hr. cbn [size] in Hf. pose proof (size_pos x). fuelS fuel f.
     cbn [pp_tok]. rewrite !strip_app. cbn [strip filter app parse_u].
     rewrite (IHx Hx f rest ltac:(lia) Hr). reflexivity.
+  - (* the <key property> *)
+    intros n _ fuel rest Hf Hr. cbn [size] in Hf. fuelS fuel f. cbn [pp_tok strip filter app parse_u]. reflexivity.
   - intros _. constructor.
   - intros x l IHx IHl [Hx Hl]. constructor; [exact (IHx Hx) | exact (IHl Hl)].
 Qed.
